@@ -244,23 +244,36 @@ PoolC05cyc(z) ==
                  <<HStop(Id(5), Id(4)), HStop(Id(4), Id(3)), HStop(Id(3), Id(2)), HStop(Id(2), Id(1)), HStop(Id(1), Id(5)), HStop(Id(6), Id(1))>>,
                  <<HStop(Id(1), Id(2)), HStop(Id(1), Id(1)), HStop(Id(2), Id(1))>>}}
 
+(* ---------------- structure: files and required columns missing ---------------- *)
+WithoutFile(feed, f) == [g \in DOMAIN feed \ {f} |-> feed[g]]
+PoolStructure(z) ==
+    {MkCase(WithoutFile(BaseFeed, f), FALSE, NoBase, FALSE, "", 1) : f \in Range(Files)}
+    \cup UNION {{MkCase(DropCol(BaseFeed, f, c), i, NoBase, FALSE, "", 1) : c \in RequiredCols(f), i \in BOOLEAN} : f \in Range(Files)}
+    \cup {MkCase(WithoutFile(WithoutFile(WithoutFile(WithoutFile(WithoutFile(BaseFeed, "transfers.txt"), "calendar.txt"), "calendar_dates.txt"), "shapes.txt"), "frequencies.txt"),
+                  FALSE, NoBase, FALSE, "", 1)}
+    \cup {MkCase(SetRows(BaseFeed, f, <<>>), FALSE, NoBase, FALSE, "", 1) : f \in Range(Files)}
+
 Cases == CASE Pool = "C01" -> PoolC01(0) [] Pool = "C03stops" -> PoolC03stops(0) [] Pool = "C03refs" -> PoolC03refs(0) [] Pool = "C08" -> PoolC08(0) [] Pool = "C08files" -> PoolC08files(0)
-           [] Pool = "C09" -> PoolC09(0) [] Pool = "C09pairs" -> PoolC09pairs(0) [] Pool = "C10" -> PoolC10(0) [] Pool = "C11" -> PoolC11(0) [] Pool = "C11q" -> PoolC11(1) [] Pool = "C11b" -> PoolC11b(0) [] Pool = "C05cyc" -> PoolC05cyc(0) [] Pool = "C05" -> PoolC05(Garbage) [] Pool = "C05q" -> PoolC05(GarbageQuick)
+           [] Pool = "C09" -> PoolC09(0) [] Pool = "C09pairs" -> PoolC09pairs(0) [] Pool = "C10" -> PoolC10(0) [] Pool = "C11" -> PoolC11(0) [] Pool = "C11q" -> PoolC11(1) [] Pool = "C11b" -> PoolC11b(0) [] Pool = "C05cyc" -> PoolC05cyc(0) [] Pool = "structure" -> PoolStructure(0) [] Pool = "C05" -> PoolC05(Garbage) [] Pool = "C05q" -> PoolC05(GarbageQuick)
 
 (* ---------------- the machine ---------------- *)
 Init == /\ case \in Cases /\ fi = 1 /\ ri = 1 /\ st = EmptySt /\ pc = "rows"
         /\ acc = [f \in Range(Files) |-> <<>>]        \* the rows that produced an entity (what the static.accept hook reports)
+SkipFile ==      \* the header lacks a required column: no row is read
+    /\ pc = "rows" /\ fi <= Len(Files) /\ ri = 1 /\ MissingCols(case.feed, Files[fi]) # {}
+    /\ st' = ParseFile(st, case.feed, Files[fi], case.opts.inherit)
+    /\ fi' = fi + 1 /\ ri' = 1 /\ UNCHANGED <<case, acc, pc>>
 RowAct ==
-    /\ pc = "rows" /\ fi <= Len(Files) /\ ri <= Len(RowsOf(case.feed, Files[fi]))
+    /\ pc = "rows" /\ fi <= Len(Files) /\ ri <= Len(RowsOf(case.feed, Files[fi])) /\ MissingCols(case.feed, Files[fi]) = {}
     /\ st' = RowStep(Files[fi], st, RowsOf(case.feed, Files[fi])[ri], ri)
     /\ acc' = IF EntityCount(Files[fi], st') > EntityCount(Files[fi], st) THEN [acc EXCEPT ![Files[fi]] = Append(@, ri)] ELSE acc
     /\ ri' = ri + 1 /\ UNCHANGED <<case, fi, pc>>
 EndAct ==
-    /\ pc = "rows" /\ fi <= Len(Files) /\ ri > Len(RowsOf(case.feed, Files[fi]))
+    /\ pc = "rows" /\ fi <= Len(Files) /\ ri > Len(RowsOf(case.feed, Files[fi])) /\ MissingCols(case.feed, Files[fi]) = {}
     /\ st' = EndStep(Files[fi], st, case.opts.inherit)
     /\ fi' = fi + 1 /\ ri' = 1 /\ UNCHANGED <<case, acc, pc>>
 Finish == /\ pc = "rows" /\ fi > Len(Files) /\ pc' = "done" /\ UNCHANGED <<case, fi, ri, st, acc>>
-Next == RowAct \/ EndAct \/ Finish
+Next == SkipFile \/ RowAct \/ EndAct \/ Finish
 Spec == Init /\ [][Next]_vars
 
 BaseResult == Result(ParseFeed(case.base[1], case.baseOpts.inherit))
@@ -268,7 +281,7 @@ Inv == pc = "done" =>
     LET r == Result(st) feed == case.feed IN
     /\ r = Result(ParseFeed(feed, case.opts.inherit))
     /\ C03_LinksPointIntoResult(r) /\ C03_RequiredNeverNil(r) /\ C03_LinksNameTheRightElement(feed, r, acc) /\ C03_ParentForest(r)
-    /\ C08_StopTimesAscending(r) /\ C08_ShapesById(r) /\ C08_ShapePointsBySequence(feed, r) /\ C08_FileOrderKept(feed, r, acc)
+    /\ C08_StopTimesAscending(r) /\ C08_ShapesById(r) /\ C08_ShapePointsBySequence(feed, r) /\ C08_FileOrderKept(feed, r, acc) /\ C08_FrequenciesKeepFileOrder(feed, r)
     /\ C11_Services(feed, r) /\ C11_Zone(feed, r)
     /\ case.relation = "C01.wellformed" => C01_OneEntityPerRow(feed, r)
     /\ case.relation = "C08.permutation" => r = BaseResult
